@@ -123,7 +123,8 @@ fn settle(sim: &mut Sim, intent: &mut Intent, lazy: bool) {
                 }
                 let hs: Vec<u32> = sim.eps[i].streams.keys().copied().collect();
                 for h in hs {
-                    sim.exec(&json!({"op": "read", "e": en(i), "h": h, "max": 64}));
+                    // (a bridge may have coalesced tens of kilobytes into one frame)
+                    sim.exec(&json!({"op": "read", "e": en(i), "h": h, "max": 1 << 20}));
                 }
                 // bridges are driven to completion against a local side that accepts everything and has
                 // nothing more to say, then dropped
@@ -186,6 +187,8 @@ fn random_ans(rng: &mut SmallRng, ready: &str) -> Value {
         0 => json!({"k": "err", "n": 0}),
         1 | 2 | 3 => json!({"k": "pending", "n": 0}),
         4 if ready == "data" => json!({"k": "eof", "n": 0}),
+        // a bulk producer: tens of kilobytes readable at once (two of them exceed 64 KiB in one coalesced frame)
+        5 if ready == "data" => json!({"k": "data", "n": pick(rng, &[40000u32, 70000])}),
         _ => json!({"k": ready, "n": rng.random_range(1..=3)}),
     }
 }
